@@ -331,6 +331,7 @@ def main(tier, replay):
         if not rec['bad']: chk.nontrivial('resetrace:%s' % rec['job'])
         for key, det in rec['bad']: chk.report(key, {'job': rec['job'], 'detail': det}, 'reset race %s: %s' % (rec['job'], key))
     chk.add('resets_racing_with_receive', rr)
+    if rr == 0: chk.inconc('the reset/receive race workload performed no reset')
     # (3d) reset() while an invoked session runs
     ri = 0
     for rec in common.pmap(reset_invoke_work, [(('tsan', 'asan')[i % 2], base + 750000 + i, ('large', 'fast')[(i // 2) % 2], outdir) for i in range(8 if q else 200)], workers=min(8, common.NPROC)):
@@ -339,6 +340,7 @@ def main(tier, replay):
         if not rec['bad']: chk.nontrivial('resetinvoke:%s' % rec['job'])
         for key, det in rec['bad']: chk.report(key, {'job': rec['job'], 'xml': rec['xml'], 'detail': det}, 'reset with invocation %s: %s' % (rec['job'], key))
     chk.add('resets_with_running_invocation', ri)
+    if ri == 0: chk.inconc('no reset() met a running invocation (hook inv.start.done never reached)')
     # (4) reset equivalence
     n4 = 200 if q else 6000; cmp_ = 0
     for out in common.pmap(reset_work, [(dbin, list(range(base + 500000 + i, base + 500000 + min(i + 20, n4)))) for i in range(0, n4, 20)]):
